@@ -64,7 +64,7 @@ func main() {
 		keys = append(keys, k)
 	}
 	sort.Strings(keys)
-	sb, _ := json.Marshal(map[string]interface{}{"rewrites": stats, "skipped": skipped})
+	sb, _ := json.Marshal(map[string]interface{}{"rewrites": stats, "skipped": skipped, "unshimmed_sync_in_access_logged_methods": unshimmed})
 	_ = os.WriteFile(filepath.Join(*out, "instr-stats.json"), sb, 0o644)
 }
 
@@ -87,7 +87,7 @@ func doPkg(src, repo, out, pkg string, overlay map[string]string) error {
 		}
 		var terr []string
 		conf := types.Config{Importer: importer.ForCompiler(fset, "source", nil), Error: func(err error) { terr = append(terr, err.Error()) }}
-		info := &types.Info{Types: map[ast.Expr]types.TypeAndValue{}, Uses: map[*ast.Ident]types.Object{}}
+		info := &types.Info{Types: map[ast.Expr]types.TypeAndValue{}, Uses: map[*ast.Ident]types.Object{}, Defs: map[*ast.Ident]types.Object{}, Selections: map[*ast.SelectorExpr]*types.Selection{}}
 		old, _ := os.Getwd()
 		_ = os.Chdir(dir)
 		_, _ = conf.Check(p.Name, fset, files, info)
@@ -204,6 +204,23 @@ func rewriteFile(fset *token.FileSet, f *ast.File, info *types.Info, name string
 			stats["go-stmt"]++
 			changed = true
 			return &ast.BlockStmt{List: append(pre, goCall)}
+		case *ast.SelectStmt:
+			// a blocking select becomes a polling loop whose waits the scheduler sees:
+			//   verifRetryN: select { ...; default: verifhook.WaitYield("select"); goto verifRetryN }
+			for _, c := range x.Body.List {
+				if c.(*ast.CommClause).Comm == nil {
+					return s // already non-blocking
+				}
+			}
+			tmpN++
+			label := fmt.Sprintf("verifRetry%d", tmpN)
+			x.Body.List = append(x.Body.List, &ast.CommClause{Body: []ast.Stmt{
+				&ast.ExprStmt{X: &ast.CallExpr{Fun: sel("verifhook", "WaitYield"), Args: []ast.Expr{&ast.BasicLit{Kind: token.STRING, Value: `"select"`}}}},
+				&ast.BranchStmt{Tok: token.GOTO, Label: ast.NewIdent(label)},
+			}})
+			stats["select"]++
+			changed = true
+			return &ast.LabeledStmt{Label: ast.NewIdent(label), Stmt: x}
 		case *ast.RangeStmt:
 			tv, ok := info.Types[x.X]
 			if !ok {
@@ -256,6 +273,15 @@ func rewriteFile(fset *token.FileSet, f *ast.File, info *types.Info, name string
 	fixBlock = func(list []ast.Stmt) []ast.Stmt {
 		for i, s := range list {
 			if ls, ok := s.(*ast.LabeledStmt); ok {
+				if inner, isSel := ls.Stmt.(*ast.SelectStmt); isSel {
+					// keep the user's label on the select itself (break L), ours goes in front
+					if r, ok := fixStmt(inner).(*ast.LabeledStmt); ok {
+						ls.Stmt = r.Stmt
+						r.Stmt = ls
+						list[i] = r
+					}
+					continue
+				}
 				ls.Stmt = fixStmt(ls.Stmt)
 				continue
 			}
@@ -271,6 +297,68 @@ func rewriteFile(fset *token.FileSet, f *ast.File, info *types.Info, name string
 			x.Body = fixBlock(x.Body)
 		case *ast.CommClause:
 			x.Body = fixBlock(x.Body)
+		}
+		return true
+	})
+	// pass 2b: blocking receives outside select: <-ch becomes verifhook.Recv(ch) (a wait the scheduler sees)
+	inSelectComm := map[ast.Node]bool{}
+	ast.Inspect(f, func(n ast.Node) bool {
+		if cc, ok := n.(*ast.CommClause); ok && cc.Comm != nil {
+			ast.Inspect(cc.Comm, func(m ast.Node) bool {
+				if m != nil {
+					inSelectComm[m] = true
+				}
+				return true
+			})
+		}
+		return true
+	})
+	recvCall := func(u *ast.UnaryExpr, two bool) ast.Expr {
+		name := "Recv"
+		if two {
+			name = "Recv2"
+		}
+		stats["chan-recv"]++
+		changed = true
+		return &ast.CallExpr{Fun: sel("verifhook", name), Args: []ast.Expr{u.X}}
+	}
+	isRecv := func(e ast.Expr) (*ast.UnaryExpr, bool) {
+		u, ok := e.(*ast.UnaryExpr)
+		if ok && u.Op == token.ARROW && !inSelectComm[u] {
+			return u, true
+		}
+		return nil, false
+	}
+	ast.Inspect(f, func(n ast.Node) bool {
+		switch x := n.(type) {
+		case *ast.AssignStmt:
+			if inSelectComm[x] {
+				return true
+			}
+			if len(x.Rhs) == 1 {
+				if u, ok := isRecv(x.Rhs[0]); ok {
+					x.Rhs[0] = recvCall(u, len(x.Lhs) == 2)
+				}
+			}
+		case *ast.ExprStmt:
+			if inSelectComm[x] {
+				return true
+			}
+			if u, ok := isRecv(x.X); ok {
+				x.X = recvCall(u, false)
+			}
+		case *ast.ReturnStmt:
+			for i, r := range x.Results {
+				if u, ok := isRecv(r); ok {
+					x.Results[i] = recvCall(u, false)
+				}
+			}
+		case *ast.CallExpr:
+			for i, a := range x.Args {
+				if u, ok := isRecv(a); ok {
+					x.Args[i] = recvCall(u, false)
+				}
+			}
 		}
 		return true
 	})
@@ -314,6 +402,9 @@ func rewriteFile(fset *token.FileSet, f *ast.File, info *types.Info, name string
 		}
 		return true
 	})
+	if addAccessLogging(f, info, name) {
+		changed = true
+	}
 	if !changed {
 		return false
 	}
@@ -350,4 +441,248 @@ func rewriteFile(fset *token.FileSet, f *ast.File, info *types.Info, name string
 	}
 	// drop stale f.Imports-based unused detection; also remove comments attached to deleted specs (none)
 	return true
+}
+
+// accessTypes are the struct types whose pointer-receiver methods get memory-access logging: every statement that
+// reads or writes a field through the receiver is preceded by verifhook.Access(recv, field, isWrite, site). The harness
+// derives data races from these records with vector clocks (exhaustively over schedules), see cmd/c19.
+var accessTypes = map[string]bool{"eventV1": true, "eventV2": true, "eventV3": true, "DNSCache": true, "destinationTripper": true}
+
+// unshimmed reports uses of synchronisation primitives the scheduler does not model (written to the stats file).
+var unshimmed = map[string]int{}
+
+func addAccessLogging(f *ast.File, info *types.Info, name string) bool {
+	changed := false
+	for _, d := range f.Decls {
+		fd, ok := d.(*ast.FuncDecl)
+		if !ok || fd.Recv == nil || fd.Body == nil || len(fd.Recv.List) != 1 || len(fd.Recv.List[0].Names) != 1 {
+			continue
+		}
+		st, ok := fd.Recv.List[0].Type.(*ast.StarExpr)
+		if !ok {
+			continue
+		}
+		tn, ok := st.X.(*ast.Ident)
+		if !ok || !accessTypes[tn.Name] {
+			continue
+		}
+		recvIdent := fd.Recv.List[0].Names[0]
+		recvObj := info.Defs[recvIdent]
+		if recvObj == nil || recvIdent.Name == "_" {
+			continue
+		}
+		isRecv := func(e ast.Expr) bool {
+			id, ok := e.(*ast.Ident)
+			return ok && info.Uses[id] == recvObj
+		}
+		type acc struct {
+			field string
+			write bool
+		}
+		// fieldOf: e.f (a field, not a method) or *e
+		fieldOf := func(e ast.Expr) (string, bool) {
+			switch x := e.(type) {
+			case *ast.SelectorExpr:
+				if isRecv(x.X) {
+					if sel := info.Selections[x]; sel != nil && sel.Kind() == types.FieldVal {
+						return x.Sel.Name, true
+					}
+				}
+			case *ast.StarExpr:
+				if isRecv(x.X) {
+					return "*", true
+				}
+			}
+			return "", false
+		}
+		var collect func(e ast.Expr, out *[]acc)
+		collect = func(e ast.Expr, out *[]acc) {
+			if e == nil {
+				return
+			}
+			ast.Inspect(e, func(n ast.Node) bool {
+				switch x := n.(type) {
+				case *ast.FuncLit:
+					return false
+				case ast.Expr:
+					if fl, ok := fieldOf(x); ok {
+						*out = append(*out, acc{fl, false})
+					}
+				}
+				return true
+			})
+		}
+		// rootWrite: the field written by an assignment target such as e.f, e.f.g, e.f[k], *e
+		var rootWrite func(e ast.Expr, out *[]acc)
+		rootWrite = func(e ast.Expr, out *[]acc) {
+			switch x := e.(type) {
+			case *ast.ParenExpr:
+				rootWrite(x.X, out)
+			case *ast.IndexExpr:
+				collect(x.Index, out)
+				rootWrite(x.X, out)
+			case *ast.SelectorExpr:
+				if fl, ok := fieldOf(x); ok {
+					*out = append(*out, acc{fl, true})
+					return
+				}
+				rootWrite(x.X, out)
+			case *ast.StarExpr:
+				if fl, ok := fieldOf(x); ok {
+					*out = append(*out, acc{fl, true})
+					return
+				}
+				collect(x.X, out)
+			}
+		}
+		var header func(s ast.Stmt, out *[]acc)
+		header = func(s ast.Stmt, out *[]acc) {
+			switch x := s.(type) {
+			case *ast.AssignStmt:
+				for _, r := range x.Rhs {
+					collect(r, out)
+				}
+				for _, l := range x.Lhs {
+					if x.Tok == token.DEFINE {
+						continue
+					}
+					rootWrite(l, out)
+				}
+			case *ast.IncDecStmt:
+				rootWrite(x.X, out)
+			case *ast.ExprStmt:
+				if call, ok := x.X.(*ast.CallExpr); ok {
+					if id, ok := call.Fun.(*ast.Ident); ok && id.Name == "delete" && len(call.Args) == 2 {
+						rootWrite(call.Args[0], out)
+						collect(call.Args[1], out)
+						return
+					}
+				}
+				collect(x.X, out)
+			case *ast.ReturnStmt:
+				for _, r := range x.Results {
+					collect(r, out)
+				}
+			case *ast.IfStmt:
+				if x.Init != nil {
+					header(x.Init, out)
+				}
+				collect(x.Cond, out)
+				if e, ok := x.Else.(*ast.IfStmt); ok {
+					header(e, out)
+				}
+			case *ast.ForStmt:
+				if x.Init != nil {
+					header(x.Init, out)
+				}
+				collect(x.Cond, out)
+				if x.Post != nil {
+					header(x.Post, out)
+				}
+			case *ast.RangeStmt:
+				collect(x.X, out)
+			case *ast.SwitchStmt:
+				if x.Init != nil {
+					header(x.Init, out)
+				}
+				collect(x.Tag, out)
+				for _, c := range x.Body.List {
+					for _, e := range c.(*ast.CaseClause).List {
+						collect(e, out)
+					}
+				}
+			case *ast.TypeSwitchStmt:
+				if x.Init != nil {
+					header(x.Init, out)
+				}
+				header(x.Assign, out)
+			case *ast.DeferStmt:
+				collect(x.Call, out)
+			case *ast.GoStmt:
+				collect(x.Call, out)
+			case *ast.SendStmt:
+				collect(x.Chan, out)
+				collect(x.Value, out)
+			case *ast.DeclStmt:
+				if gd, ok := x.Decl.(*ast.GenDecl); ok {
+					for _, sp := range gd.Specs {
+						if vs, ok := sp.(*ast.ValueSpec); ok {
+							for _, v := range vs.Values {
+								collect(v, out)
+							}
+						}
+					}
+				}
+			case *ast.LabeledStmt:
+				header(x.Stmt, out)
+			}
+		}
+		var fix func(list []ast.Stmt) []ast.Stmt
+		fix = func(list []ast.Stmt) []ast.Stmt {
+			var outList []ast.Stmt
+			for _, s := range list {
+				var as []acc
+				header(s, &as)
+				seen := map[acc]bool{}
+				for _, a := range as {
+					if seen[a] || (!a.write && seen[acc{a.field, true}]) {
+						continue
+					}
+					seen[a] = true
+					w := "false"
+					if a.write {
+						w = "true"
+					}
+					outList = append(outList, &ast.ExprStmt{X: &ast.CallExpr{Fun: sel("verifhook", "Access"), Args: []ast.Expr{
+						ast.NewIdent(recvIdent.Name), &ast.BasicLit{Kind: token.STRING, Value: fmt.Sprintf("%q", a.field)}, ast.NewIdent(w),
+						&ast.BasicLit{Kind: token.STRING, Value: fmt.Sprintf("%q", tn.Name+"."+fd.Name.Name)}}}})
+					stats["access-log"]++
+					changed = true
+				}
+				outList = append(outList, s)
+			}
+			return outList
+		}
+		ast.Inspect(fd.Body, func(n ast.Node) bool {
+			switch x := n.(type) {
+			case *ast.FuncLit:
+				return false
+			case *ast.BlockStmt:
+				x.List = fix(x.List)
+			case *ast.CaseClause:
+				x.Body = fix(x.Body)
+			case *ast.CommClause:
+				x.Body = fix(x.Body)
+			}
+			return true
+		})
+		// synchronisation the scheduler does not model, used inside these methods: the vector-clock verdict is then unusable
+		ast.Inspect(fd.Body, func(n ast.Node) bool {
+			switch y := n.(type) {
+			case *ast.SendStmt, *ast.SelectStmt:
+				unshimmed[tn.Name+"."+fd.Name.Name+": channel operation"]++
+			case *ast.UnaryExpr:
+				if y.Op == token.ARROW {
+					unshimmed[tn.Name+"."+fd.Name.Name+": channel operation"]++
+				}
+			case *ast.CallExpr:
+				if id, ok := y.Fun.(*ast.Ident); ok && id.Name == "close" {
+					unshimmed[tn.Name+"."+fd.Name.Name+": channel operation"]++
+				}
+			}
+			if se, ok := n.(*ast.SelectorExpr); ok {
+				if isPkgIdent(info, se.X, "sync/atomic") && se.Sel.Name != "Value" {
+					unshimmed[tn.Name+"."+fd.Name.Name+": atomic."+se.Sel.Name]++
+				}
+				if tv, ok := info.Types[se.X]; ok && tv.Type != nil {
+					ts := strings.TrimPrefix(tv.Type.String(), "*")
+					if strings.HasPrefix(ts, "sync.Once") || strings.HasPrefix(ts, "sync.Cond") || (strings.HasPrefix(ts, "sync/atomic.") && ts != "sync/atomic.Value") {
+						unshimmed[tn.Name+"."+fd.Name.Name+": "+ts]++
+					}
+				}
+			}
+			return true
+		})
+	}
+	return changed
 }
